@@ -14,7 +14,7 @@ LEVEL = "exploration"
 RULE = (
     "case = (stage in walk / visit_leaves / transform / multi-TAN tiling / multi-WCS tiling, item set, worker count k, schedule, ONE failing "
     "item chosen among the items the stage will process). The callback (or the tile I/O of the transform / the tile update "
-    "of the multi-image tiler) raises for that item. k=1 runs serially; k>=2 runs the real producer/worker code on Engine A "
+    "of the multi-image tiler) raises for that item - or, for walk / leaf visits with k>=2, the worker handling it is killed by a signal. k=1 runs serially; k>=2 runs the real producer/worker code on Engine A "
     "with a generated schedule. Oracle: the public call must end by raising in the caller - returning normally is a "
     "violation (error swallowed), a structural hang is a violation (waits forever). Non-trivial: k>=2 and the failing item "
     "is not the first one the stage dispatches."
@@ -48,7 +48,23 @@ class BoomPlain(Exception):
 EXC = {"runtime": Boom, "os": BoomOS, "value": BoomValue, "key": BoomKey, "plain": BoomPlain, "builtin-os": OSError, "builtin-value": ValueError, "empty": None}
 
 
+class WorkerKilled(BaseException):
+    """marker: the worker handling the failing item dies abruptly (signal), it does not raise"""
+
+
 def exc_class(name):
+    if name == "kill":
+        def die(msg=""):
+            import os, signal, threading
+
+            if threading.current_thread() is not threading.main_thread():
+                # a simulated process (a thread of Engine A): it ends with a negative exit code
+                from ..simsched import SimKilled
+
+                return SimKilled()
+            os.kill(os.getpid(), signal.SIGKILL)  # a real worker process
+
+        return die
     if name == "empty":
         import queue
 
@@ -300,7 +316,7 @@ def strat_real(draw, tier):
     case["k"] = draw(st.sampled_from([2, 3, 4]))
     case["stage"] = draw(st.sampled_from(["walk", "leaves"]))
     case["fail_idx"] = draw(st.integers(0, 2000))
-    case["exc"] = draw(st.sampled_from(["runtime", "os", "value", "key"]))
+    case["exc"] = draw(st.sampled_from(["runtime", "os", "value", "key", "kill"]))
     return case
 
 
@@ -331,7 +347,9 @@ def strat(draw, tier):
         case = draw(scen.pyramid_cases(3 if tier == "quick" else 5))
         case["stage"] = stage
     case["fail_idx"] = draw(st.integers(0, 2000))
-    case["exc"] = draw(st.sampled_from(["runtime", "runtime", "os", "value", "key", "plain", "builtin-os", "builtin-value", "empty"]))
+    case["exc"] = draw(st.sampled_from(["runtime", "runtime", "os", "value", "key", "plain", "builtin-os", "builtin-value", "empty", "kill"]))
+    if case["exc"] == "kill" and (case.get("k", 1) == 1 or case["stage"] not in ("walk", "leaves")):
+        case["exc"] = "runtime"  # killing the only (serial) process is not a meaningful fault
     return case
 
 
